@@ -12,6 +12,14 @@ from tradingenv.events import EventNBBO
 
 from vf import ep
 
+class RecChild(ep.Rec):
+    """All process_<Event> callbacks are INHERITED from ep.Rec."""
+
+
+class RecABChild(ep.RecAB):
+    """Inherits its two subscriptions."""
+
+
 PROP = "C04"
 LEVEL = "exploration"
 ENGINE = "EP"
@@ -30,7 +38,7 @@ ASSUMPTIONS = ["when a new-date notification must be sent is not stated by the p
                "episodes aborted by TrackRecord's duplicate-timestamp rejection (DESIGN 4.2-c) are judged on the delivered prefix"]
 REQUIRED = ["C04:exchange-exactly-once", "C04:delivery-sequence", "C04:second-observer", "C04:timestamps-nondecreasing", "C04:env-notification-stamp",
             "C04:clock-in-callback", "C04:rebalance-stamp", "C04:latency-refused"]
-REQUIRED_CATS = ["second-env-same-transmitter", "add_timesteps", "add_custom_events", "latency>0", "markov", "warmup", "late-fold", "episode-length", "event-after-grid", "event-before-grid",
+REQUIRED_CATS = ["observer:inherited-callbacks", "second-env-same-transmitter", "add_timesteps", "add_custom_events", "latency>0", "markov", "warmup", "late-fold", "episode-length", "event-after-grid", "event-before-grid",
                  "event-at-latency-bound"]
 REQUIRED_HITS = ["Broker.rebalance"]
 TECHNIQUE = "runtime monitoring: recording observer + hook markers compared with an independent delivery-schedule model"
@@ -138,8 +146,11 @@ def case(ctx, i, tier):
         tr.add_events(evs)
     eplen = rng.choice([None, None, None, 1, 2, 3])
     sink, sink2 = ep.Sink(), ep.Sink()
+    inherit = rng.random() < 0.5
+    RecCls, RecABCls = (RecChild, RecABChild) if inherit else (ep.Rec, ep.RecAB)
+    ctx.cat("observer:inherited-callbacks" if inherit else "observer:own-callbacks")
     env = TradingEnv(action_space=BoxPortfolio([ETF("X"), ETF("Y")]), transmitter=tr,
-                     state=ep.Rec(sink, features=[ep.RecAB(sink2)]), latency=L, episode_length=eplen)
+                     state=RecCls(sink, features=[RecABCls(sink2)]), latency=L, episode_length=eplen)
     sink.env = env
     if L > 0:
         ctx.cat("latency>0")
